@@ -56,6 +56,9 @@ def twin_fs_spec(r, o):
 def build_case(seed, pid, i, tier):
     r = common.rng_for(seed, pid, i)
     o = gm.sample_opts(r)
+    if r.random() < 0.06:
+        # prefix and suffix both as long as whole files, on a device where the suffix stage runs from 64 KiB on
+        o.update(kind="ssd", max_prefix=1 << 20, max_suffix=r.choice([1 << 20, 1 << 20, 65536]))
     if r.random() < 0.08:
         o["fs"] = "ext4"
         spec, meta = twin_fs_spec(r, o)
